@@ -204,7 +204,7 @@ func c13Item(c *ctx, k ref.Kind, n int) {
 }
 
 func runC13(c *ctx) {
-	c.Rule = "hook H1 sweep of the header routine over (format, n): thorough = every n with n*width in [0, 16777215+8*width] for all 14 formats (exhaustive); quick = every n within 300 bytes of 0, 255|256, 65535|65536 and the limit, plus every 257th n. Real items at n in {0,1,floor(255/w),+1,floor(65535/w),+1,floor(limit/w),+1} for all 14 formats: constructible iff within the limit, non-empty encoding with the arithmetic header, hsms.Parse reads the same length back. non-trivial = payload > 255 bytes; distinct by (format, n) Also (rounds 5-8): items at the limit inside a list; 16,777,215 elements reached by expansion; 14 formats x sizes 0..300 through the real encoder twice; results zeroed by the caller and encoded again; slice argument forms. Also (round 9): same-format neighbours in one list whose length fields share the leading byte (256|257, 300|400, 65536|65537 ..)."
+	c.Rule = "hook H1 sweep of the header routine over (format, n): thorough = every n with n*width in [0, 16777215+8*width] for all 14 formats (exhaustive); quick = every n within 300 bytes of 0, 255|256, 65535|65536 and the limit, plus every 257th n. Real items at n in {0,1,floor(255/w),+1,floor(65535/w),+1,floor(limit/w),+1} for all 14 formats: constructible iff within the limit, non-empty encoding with the arithmetic header, hsms.Parse reads the same length back. non-trivial = payload > 255 bytes; distinct by (format, n) Also (rounds 5-8): items at the limit inside a list; 16,777,215 elements reached by expansion; 14 formats x sizes 0..300 through the real encoder twice; results zeroed by the caller and encoded again; slice argument forms. Also (round 9): same-format neighbours in one list whose length fields share the leading byte (256|257, 300|400, 65536|65537 ..). Also (round 10): every decode runs on the harness's own copy of the frame, which is overwritten with two-byte UTF-8 sequences before the decoded item is measured and re-encoded."
 	c.Assume = []string{"hook H1 (pkg/ast/verif_export.go, build tag verif) is a thin wrapper of the unexported header routine", "the arithmetic statement of the header in this file"}
 
 	var swept, nontriv int64
